@@ -623,7 +623,8 @@ err_t bakeBMQVRunB(octet key[32], const bign_params* params,
 	octet* out;			/* [l / 2] */
 	void* state;		/* [bakeBMQV_keep()] */
 	// проверить key
-	if (!memIsValid(key, 32))
+	if (!memIsValid(key, 32) ||
+		!memIsValid(params, sizeof(bign_params)))
 		return ERR_BAD_INPUT;
 	// создать блоб
 	if (params->l != 128 && params->l != 192 && params->l != 256)
@@ -672,7 +673,8 @@ err_t bakeBMQVRunA(octet key[32], const bign_params* params,
 	octet* out;			/* [l / 2 + 8] */
 	void* state;		/* [bakeBMQV_keep()] */
 	// проверить key
-	if (!memIsValid(key, 32))
+	if (!memIsValid(key, 32) ||
+		!memIsValid(params, sizeof(bign_params)))
 		return ERR_BAD_INPUT;
 	// создать блоб
 	if (params->l != 128 && params->l != 192 && params->l != 256)
@@ -1230,6 +1232,7 @@ err_t bakeBSTSRunB(octet key[32], const bign_params* params,
 	void* state;		/* [bakeBSTS_keep()] */
 	// проверить входные данные
 	if (!memIsValid(key, 32) ||
+		!memIsValid(params, sizeof(bign_params)) ||
 		!memIsValid(certb, sizeof(bake_cert)))
 		return ERR_BAD_INPUT;
 	// создать блоб
@@ -1325,6 +1328,7 @@ err_t bakeBSTSRunA(octet key[32], const bign_params* params,
 	void* state;		/* [bakeBSTS_keep()] */
 	// проверить входные данные
 	if (!memIsValid(key, 32) ||
+		!memIsValid(params, sizeof(bign_params)) ||
 		!memIsValid(certa, sizeof(bake_cert)))
 		return ERR_BAD_INPUT;
 	// создать блоб
@@ -1837,7 +1841,8 @@ err_t bakeBPACERunB(octet key[32], const bign_params* params,
 	octet* out;			/* [l / 2 + 8] */
 	void* state;		/* [bakeBPACE_keep()] */
 	// проверить key
-	if (!memIsValid(key, 32))
+	if (!memIsValid(key, 32) ||
+		!memIsValid(params, sizeof(bign_params)))
 		return ERR_BAD_INPUT;
 	// создать блоб
 	if (params->l != 128 && params->l != 192 && params->l != 256)
@@ -1890,7 +1895,8 @@ err_t bakeBPACERunA(octet key[32], const bign_params* params,
 	octet* out;			/* [5 * l / 8] */
 	void* state;		/* [bakeBPACE_keep()] */
 	// проверить key
-	if (!memIsValid(key, 32))
+	if (!memIsValid(key, 32) ||
+		!memIsValid(params, sizeof(bign_params)))
 		return ERR_BAD_INPUT;
 	// создать блоб
 	if (params->l != 128 && params->l != 192 && params->l != 256)
